@@ -32,7 +32,7 @@ ConcChecks(r) ==
     IF r.deadlock THEN {"Deadlock"} ELSE IF r.hang THEN {"Hang"} ELSE IF r.panic # "" THEN {"Panic"}
     ELSE LET got == {<<x.t, x.i, x.code, [comps |-> x.body.comps, overall |-> x.body.overall]>> : x \in ToSet(r.resps)}
          IN (IF \A x \in ToSet(r.resps) : Consistent(x.code, x.body) THEN {} ELSE {"Inconsistent"})
-            \cup (IF got \in SeqRespsOf(r.pre, r.threads) THEN {} ELSE {"Linearizable"})
+            \cup (IF got \in SeqRespsProbedOf(r.pre, r.threads) THEN {} ELSE {"Linearizable"})
 
 \* WaitForReady: fold over the event log
 RECURSIVE WaitFold(_, _, _)
